@@ -105,3 +105,28 @@ add({"name": "FilePresentedBlockwise_read_block", "file": "dfs/img_sdf.cc",
                (NULLOPT_SB[0], NULLOPT_SB[1], 1),
                (r"std::copy\(got\.begin\(\), got\.end\(\), buf\.begin\(\)\);", "bytevec_copy(&got, buf.d);", 1),
                (r"return buf;", "{ opt_SectorBuffer some_; some_.has = 1; some_.val = buf; return some_; }", 1)]})
+
+# ---- identify.cc (C13) ---------------------------------------------------------------------------
+ID = "dfs/identify.cc"
+add({"name": "smells_like_hdfs", "file": ID, "anchor": r"bool smells_like_hdfs\(const DFS::SectorBuffer& sec1\)",
+     "sig": "static bool smells_like_hdfs(const SectorBuffer *sec1)",
+     "rules": [(r"sec1\[", "sec1->d[", 1)]})
+add({"name": "get_dfs_sector_count", "file": ID, "anchor": r"DFS::sector_count_type get_dfs_sector_count\(const DFS::SectorBuffer& sec1\)",
+     "sig": "static sector_count_type get_dfs_sector_count(const SectorBuffer *sec1)",
+     "rules": [(r"sec1\[", "sec1->d[", 2), (r"DFS::sector_count_type\(", "(sector_count_type)(", 1)]})
+add({"name": "get_hdfs_sector_count", "file": ID, "anchor": r"DFS::sector_count_type get_hdfs_sector_count\(const DFS::SectorBuffer& sec1\)",
+     "sig": "static sector_count_type get_hdfs_sector_count(const SectorBuffer *sec1)",
+     "rules": [(r"sec1\[", "sec1->d[", 3), (r"DFS::sector_count_type\(", "(sector_count_type)(", 1),
+               (r"\bauto sectors_per_side\b", "int sectors_per_side", 1), (r"\bconst auto side_shift\b", "const int side_shift", 1)]})
+add({"name": "smells_like_watford", "file": ID,
+     "anchor": r"bool smells_like_watford\(DFS::DataAccess& access,\s*const DFS::SectorBuffer& buf1\)",
+     "sig": "static bool smells_like_watford(struct DataAccess *access, const SectorBuffer *buf1)",
+     "rules": [(r"DFS::byte", "byte", 2), (r"buf1\[", "buf1->d[", ">=2"),
+               (r"\bauto start_sector\b", "__auto_type start_sector", 1),
+               (r'eliminated_format\(DFS::Format::WDFS, "sector 2 is in use by a file"\);', "g_witness_pos = pos;  /* diagnostic dropped, witness kept */", 1),
+               (r'eliminated_format\(DFS::Format::WDFS, "[^"]*"\);', "/* diagnostic dropped */", 2),
+               (r"auto got = access\.read_block\(2\);", "opt_SectorBuffer got = DataAccess_read_block(access, 2);", 1),
+               (r"if \(!got\)", "if (!got.has)", 1),
+               (r"std::all_of\(got->cbegin\(\), got->cbegin\(\)\+0x08,\s*\[\]\(byte b\) \{ return b == 0xAA; \}\)", "bytes_all_equal(got.val.d, 0x08, 0xAA)", 1),
+               (r"(for \(pos = 8; pos <= last_catalog_entry_pos; pos \+= 8\))", r"\1 WATFORD_LOOP_CONTRACT", 1)],
+     "dropped": ["eliminated_format(...) diagnostics (verbose-only stderr text)"]})
